@@ -1,4 +1,5 @@
 import RubyTi.Proofs.MatchLemmas
+import RubyTi.Proofs.BindLemmas
 
 /-!
 # C07 / C08 — the per-argument decision (checkArgType) against the statements' reference notions
@@ -11,8 +12,12 @@ For every declared parameter type `d` and argument type `a` (any tags, classes, 
 Both were false before the `fix:` commits on IsMatchUnionType / IsMatchType (witnesses in
 known_findings.jsonl F35/F36: `Integer|String` against `Int|String|Symbol`; `Foo` against `GPIO|String`;
 `Union<Foo String>` against `Union<Bar String>`).
-Argument *binding* (count, defaults, rest, keywords, overload fallback, receiver lookup) is
-checked by the `match`/`prio` streams and end-to-end.
+`fitting_call_accepted`: on the model of the binding loop (`Model/Bind.lean`, tied by the `bind`
+stream), for every positional signature and every list of positional arguments: if the count is
+accepted (no argument is left over, every parameter without an argument has a default) and every
+possible value of every argument is admitted by the parameter at its position, the call is accepted.
+Rest and keyword parameters, overload fallback and receiver lookup are checked by the `bind`, `prio`
+and `lookup` streams and end-to-end.
 -/
 namespace RubyTi.C08
 open RubyTi RubyTi.Match Gen.Tok
@@ -77,5 +82,40 @@ theorem fits_accepted (d a : T) (hne : possible a ≠ [])
 
 /-- non-vacuity: `Integer|String` against `Int|String|Symbol` (the witness that used to be rejected) -/
 example : checkArg (T.makeUnion [T.makeAnyInt, T.makeAnyString, T.makeAnySymbol]) (T.makeUnion [T.makeAnyInt, T.makeAnyString]) = true := by decide
+
+/-! ## counts and binding (positional signatures) -/
+section
+open RubyTi.Bind
+
+/-- the statement's "certainly fits" for a positional signature -/
+def CertainlyFits : List T → List Param → Prop
+  | [], ps => ∀ p ∈ ps, p.t.fl.hasDefault = true
+  | _ :: _, [] => False
+  | a :: as, p :: ps => possible a ≠ [] ∧ (∀ v ∈ possible a, admits p.t v = true) ∧ CertainlyFits as ps
+
+theorem certainlyFits_fitsB (as : List T) (ps : List Param) (h : CertainlyFits as ps) : fitsB as ps = true := by
+  induction as generalizing ps with
+  | nil =>
+    simp only [fitsB]
+    exact List.all_eq_true.mpr (fun p hp => h p hp)
+  | cons a rest ih =>
+    cases ps with
+    | nil => exact absurd h (by simp [CertainlyFits])
+    | cons p ps' =>
+      simp only [CertainlyFits] at h
+      simp only [fitsB, Bool.and_eq_true]
+      exact ⟨fits_accepted p.t a h.1 h.2.1, ih ps' h.2.2⟩
+
+/-- **a call that certainly fits a positional signature is accepted** -/
+theorem fitting_call_accepted (ps : List Param) (hps : posOnly ps) (as : List T) (h : CertainlyFits as ps) :
+    bind ps (as.map Arg.pos) = .ok :=
+  (bind_pos_ok_iff ps hps as).mpr (certainlyFits_fitsB as ps h)
+
+/-- non-vacuity: `m(Int|String|Symbol, Int = default)` with an `Integer|String` argument -/
+example :
+    let ps : List Param := [{ kind := .pos, t := T.makeUnion [T.makeAnyInt, T.makeAnyString, T.makeAnySymbol] },
+                            { kind := .pos, t := T.makeBuiltinDefaultInt }]
+    bind ps ([T.makeUnion [T.makeAnyInt, T.makeAnyString]].map Arg.pos) = .ok := by decide
+end
 
 end RubyTi.C08
